@@ -109,6 +109,20 @@ def xUrl : XObj → Option Json
   | .node _ _ u _ _ _ => some u
   | .text _ => none
 
+/-- what a look-up came to, as text: for `decide` and for the non-vacuity examples -/
+def outcome : Except CErr (Option XObj) → List Str
+  | .error .valueError => [['V', 'a', 'l', 'u', 'e', 'E', 'r', 'r', 'o', 'r']]
+  | .error .typeError => [['T', 'y', 'p', 'e', 'E', 'r', 'r', 'o', 'r']]
+  | .error .attrError => [['A', 't', 't', 'r', 'i', 'b', 'u', 't', 'e', 'E', 'r', 'r', 'o', 'r']]
+  | .ok none => [['n', 'o', 'n', 'e']]
+  | .ok (some (.node cls (.str n) (.str u) _ _ _)) => [cls, n, u]
+  | .ok (some _) => [['o', 't', 'h', 'e', 'r']]
+
+/-- the text of a JSON string (empty for anything else) -/
+def jsonText : Json → Str
+  | .str s => s
+  | _ => []
+
 /-! ## The description after `dict2obj` has run on it
 
 `extDict["external_url"] = extDict["external_url"].split("/", 1)[-1]` is stored back into the dictionary.
